@@ -9,42 +9,29 @@ of coroutine completion and stop") and is reported in docs/C39.md.
 import TornadoModel.C39.Model
 namespace TornadoModel.C39
 
-def okAct (m : M) : Act → Bool
-  | .start => !m.running && m.inflight.isEmpty
-  | _ => true
-
-/-- the calls of a foreign callback that runs *before* the timer handle: `start()` only on an idle PeriodicCallback -/
-def okActs : M → List Act → Bool
-  | _, [] => true
-  | m, a :: as => okAct m a && okActs (actStep m a).1 as
-
 def noStartAct : Act → Bool
   | .start => false
   | _ => true
 
-/-- `start()` only on an idle PeriodicCallback — for a foreign callback in the window between the timer handle and
-the body of `_run` that means: no `start()` at all (an invocation is about to begin). -/
-def okOp (m : M) : Op → Bool
-  | .start => !m.running && m.inflight.isEmpty
-  | .iter late true acts =>
-    match earliest m.timers with
-    | none => okActs m acts
-    | some t => okActs { m with now := if m.now < t.2 + late then t.2 + late else m.now } acts
+/-- the only restriction left: no `start()` from a foreign callback in the window between the timer handle and the
+body of `_run` (needed for the *timer* invariant `TInv` only; the overlap invariant `Inv1` holds for every program) -/
+def okOp : Op → Bool
   | .iter _ false acts => acts.all noStartAct
   | _ => true
 
-/-- every op of the program is admissible in the state it is applied to -/
-def WF : M → List Op → Prop
-  | _, [] => True
-  | m, op :: ops => okOp m op = true ∧ WF (step m op).1 ops
+def WF (ops : List Op) : Prop := ∀ op ∈ ops, okOp op = true
 
-/-- at most one thing can start an invocation: either one armed timer (and nothing in flight) or nothing armed -/
-def Inv (m : M) : Prop :=
-  m.inflight.length ≤ 1 ∧
-  (m.timers = [] ∨ (∃ h d, m.timers = [(h, d)] ∧ m.handle = some h ∧ m.inflight = [] ∧ m.running = true))
+/-- overlap invariant (every program): at most one invocation in flight, and then `_in_flight` is set -/
+def Inv1 (m : M) : Prop := m.inflight.length ≤ 1 ∧ (m.inflight ≠ [] → m.busy = true)
+
+/-- timer invariant: at most one armed timer, it is `self._timeout`, and nothing is in flight while it is armed -/
+def TInv (m : M) : Prop :=
+  m.timers = [] ∨ (∃ h d, m.timers = [(h, d)] ∧ m.handle = some h ∧ m.inflight = [] ∧ m.running = true)
+
+def Inv (m : M) : Prop := Inv1 m ∧ TInv m
 
 theorem inv_init (ct now : Rat) (ks : List Kind) : Inv (init ct now ks) := by
-  simp [Inv, init]
+  simp [Inv, Inv1, TInv, init]
 
 theorem scheduleNext_running (m : M) : (scheduleNext m).1.running = m.running := by
   unfold scheduleNext; split <;> simp
@@ -55,14 +42,23 @@ theorem scheduleNext_no_started (m : M) : ∀ inv t, Ev.started inv t ∉ (sched
 theorem scheduleNext_inflight (m : M) : (scheduleNext m).1.inflight = m.inflight := by
   unfold scheduleNext; split <;> simp
 
-/-- `_schedule_next` on a state with nothing armed and nothing in flight keeps the invariant -/
-theorem scheduleNext_inv (m : M) (ht : m.timers = []) (hi : m.inflight = []) : Inv (scheduleNext m).1 := by
+theorem scheduleNext_busy (m : M) : (scheduleNext m).1.busy = m.busy := by
+  unfold scheduleNext; split <;> simp
+
+theorem scheduleNext_inv1 (m : M) (h : Inv1 m) : Inv1 (scheduleNext m).1 := by
+  unfold Inv1; rw [scheduleNext_inflight, scheduleNext_busy]; exact h
+
+/-- `_schedule_next` on a state with nothing armed and nothing in flight keeps the timer invariant -/
+theorem scheduleNext_tinv (m : M) (ht : m.timers = []) (hi : m.inflight = []) : TInv (scheduleNext m).1 := by
   unfold scheduleNext
   split
-  · next hr => simp [Inv, ht, hi, hr]
-  · simp [Inv, ht, hi]
+  · next hr => simp [TInv, ht, hi, hr]
+  · simp [TInv, ht]
 
 theorem runCb_not_running (m : M) (h : m.running = false) : runCb m = (m, []) := by
+  simp [runCb, h]
+
+theorem runCb_busy (m : M) (h : m.busy = true) : runCb m = (m, []) := by
   simp [runCb, h]
 
 theorem runCb_running (m : M) : (runCb m).1.running = m.running := by
@@ -71,16 +67,72 @@ theorem runCb_running (m : M) : (runCb m).1.running = m.running := by
   · rfl
   · split <;> split <;> simp [scheduleNext_running]
 
-theorem runCb_inv (m : M) (ht : m.timers = []) (hi : m.inflight = []) : Inv (runCb m).1 := by
+/-- the guard of `_run`: an invocation starts only when none is in flight — in any state satisfying `Inv1` -/
+theorem runCb_inv1 (m : M) (h : Inv1 m) :
+    Inv1 (runCb m).1 ∧ (∀ inv t, Ev.started inv t ∈ (runCb m).2 → m.inflight = []) := by
+  by_cases hb : m.busy = true
+  · rw [runCb_busy m hb]; exact ⟨h, by simp⟩
+  · have hb' : m.busy = false := by simpa using hb
+    have hi : m.inflight = [] := by
+      cases hfl : m.inflight with
+      | nil => rfl
+      | cons a as => exact absurd (h.2 (by simp [hfl])) hb
+    refine ⟨?_, fun _ _ _ => hi⟩
+    unfold runCb
+    split
+    · exact h
+    · split <;> split <;> simp [Inv1, scheduleNext_inflight, scheduleNext_busy, hi, hb']
+
+theorem runCb_tinv (m : M) (ht : m.timers = []) (hi : m.inflight = []) : TInv (runCb m).1 := by
   unfold runCb
   split
-  · simp [Inv, ht, hi]
+  · simp [TInv, ht]
   · split <;> split
     all_goals first
-      | (apply scheduleNext_inv <;> simp [ht, hi])
-      | simp [Inv, ht, hi]
+      | (apply scheduleNext_tinv <;> simp [ht, hi])
+      | simp [TInv, ht]
 
 theorem earliest_single (t : Nat × Rat) : earliest [t] = some t := by simp [earliest]
+
+/-! ### `start()` / `stop()` -/
+
+theorem startM_props (m : M) :
+    (∀ inv t, Ev.started inv t ∉ (startM m).2) ∧ (startM m).1.inflight = m.inflight ∧
+    (startM m).1.busy = m.busy ∧ (startM m).1.running = true := by
+  unfold startM
+  cases hh : m.handle <;> simp only [] <;> split <;>
+    simp_all [scheduleNext_no_started, scheduleNext_inflight, scheduleNext_busy, scheduleNext_running]
+
+theorem stopM_props (m : M) :
+    (stopM m).2 = [] ∧ (stopM m).1.inflight = m.inflight ∧ (stopM m).1.busy = m.busy ∧
+    (stopM m).1.running = false := by
+  unfold stopM
+  cases hh : m.handle <;> simp
+
+/-- `start()` in any state of the invariant: the pending timeout (if any) is replaced, never duplicated; nothing is
+armed while an invocation is in flight -/
+theorem startM_tinv (m : M) (h1 : Inv1 m) (hT : TInv m) : TInv (startM m).1 := by
+  cases hb : m.busy with
+  | true =>
+    unfold startM
+    rcases hT with ht | ⟨h, d, ht, hh, _, _⟩
+    · cases hh : m.handle <;> simp [TInv, ht, hb]
+    · simp [TInv, ht, hh, hb]
+  | false =>
+    have hi : m.inflight = [] := by
+      cases hfl : m.inflight with
+      | nil => rfl
+      | cons a as => have := h1.2 (by simp [hfl]); simp [hb] at this
+    unfold startM
+    rcases hT with ht | ⟨h, d, ht, hh, _, _⟩
+    · cases hh : m.handle <;> simp only [hb, Bool.false_eq_true, ↓reduceIte] <;> apply scheduleNext_tinv <;> simp [ht, hi]
+    · simp only [hh, hb, Bool.false_eq_true, ↓reduceIte]; apply scheduleNext_tinv <;> simp [ht, hi]
+
+theorem stopM_tinv (m : M) (hT : TInv m) : TInv (stopM m).1 := by
+  unfold stopM
+  rcases hT with ht | ⟨h, d, ht, hh, _, _⟩
+  · cases hh : m.handle <;> simp [TInv, ht]
+  · simp [TInv, ht, hh]
 
 /-! ### foreign callbacks (`Act`s) -/
 
@@ -93,27 +145,34 @@ def Act.toOp : Act → Op
 theorem actStep_eq (m : M) (a : Act) : actStep m a = step m a.toOp := by cases a <;> rfl
 
 theorem actStep_props (m : M) (a : Act) :
-    (∀ inv t, Ev.started inv t ∉ (actStep m a).2) ∧ (actStep m a).1.inflight = m.inflight := by
+    (∀ inv t, Ev.started inv t ∉ (actStep m a).2) ∧ (actStep m a).1.inflight = m.inflight ∧
+    (actStep m a).1.busy = m.busy := by
   cases a with
-  | start => exact ⟨scheduleNext_no_started _, by simp [actStep, scheduleNext_inflight]⟩
-  | stop => simp only [actStep]; split <;> simp
+  | start => exact ⟨(startM_props m).1, (startM_props m).2.1, (startM_props m).2.2.1⟩
+  | stop => exact ⟨by simp [actStep, (stopM_props m).1], (stopM_props m).2.1, (stopM_props m).2.2.1⟩
   | block d => simp [actStep]
 
 theorem actsRun_props (acts : List Act) : ∀ m,
-    (∀ inv t, Ev.started inv t ∉ (actsRun m acts).2) ∧ (actsRun m acts).1.inflight = m.inflight := by
+    (∀ inv t, Ev.started inv t ∉ (actsRun m acts).2) ∧ (actsRun m acts).1.inflight = m.inflight ∧
+    (actsRun m acts).1.busy = m.busy := by
   induction acts with
   | nil => intro m; simp [actsRun]
   | cons a as ih =>
     intro m
-    obtain ⟨h1, h2⟩ := actStep_props m a
-    obtain ⟨h3, h4⟩ := ih (actStep m a).1
-    refine ⟨?_, ?_⟩
+    obtain ⟨h1, h2, hb2⟩ := actStep_props m a
+    obtain ⟨h3, h4, hb4⟩ := ih (actStep m a).1
+    refine ⟨?_, ?_, ?_⟩
     · intro inv t h
       simp only [actsRun, List.mem_append] at h
       rcases h with h | h
       · exact h1 inv t h
       · exact h3 inv t h
     · simp only [actsRun]; rw [h4, h2]
+    · simp only [actsRun]; rw [hb4, hb2]
+
+theorem actsRun_inv1 (acts : List Act) (m : M) (h : Inv1 m) : Inv1 (actsRun m acts).1 := by
+  obtain ⟨_, h2, h3⟩ := actsRun_props acts m
+  unfold Inv1; rw [h2, h3]; exact h
 
 /-- whether the PeriodicCallback is running after a foreign callback is decided by its last `stop()`/`start()` -/
 theorem actsRun_running (acts : List Act) : ∀ m,
@@ -125,8 +184,8 @@ theorem actsRun_running (acts : List Act) : ∀ m,
     simp only [actsRun]
     rw [ih]
     cases a with
-    | start => simp [actStep, scheduleNext_running, actsStopped]
-    | stop => simp only [actStep, actsStopped]; split <;> simp
+    | start => simp [actStep, (startM_props m).2.2.2, actsStopped]
+    | stop => simp [actStep, (stopM_props m).2.2.2, actsStopped]
     | block d => simp [actStep, actsStopped]
 
 theorem actsStopped_mono (acts : List Act) : ∀ s, actsStopped false acts = true → actsStopped s acts = true := by
@@ -150,8 +209,8 @@ theorem actsRun_nostart_stopped (acts : List Act) : ∀ m, acts.all noStartAct =
     cases a with
     | start => simp [noStartAct] at hall
     | stop =>
-      have : (actStep m .stop).1.running = false ∧ (actStep m .stop).2 = [] := by
-        simp only [actStep]; split <;> simp
+      have : (actStep m .stop).1.running = false ∧ (actStep m .stop).2 = [] :=
+        ⟨(stopM_props m).2.2.2, (stopM_props m).1⟩
       obtain ⟨h1, h2⟩ := ih (actStep m .stop).1 hall.2 this.1
       simp only [actsRun, h1, h2, this.2]; simp
     | block d =>
@@ -170,106 +229,157 @@ theorem actsRun_nostart_idle (acts : List Act) : ∀ m, acts.all noStartAct = tr
     | start => simp [noStartAct] at hall
     | stop =>
       have : (actStep m .stop).1.timers = [] ∧ (actStep m .stop).2 = [] := by
-        simp only [actStep]; split <;> simp [ht]
+        simp only [actStep, stopM]; split <;> simp [ht]
       obtain ⟨h1, h2⟩ := ih (actStep m .stop).1 hall.2 this.1
       simp only [actsRun, h1, h2, this.2]; simp
     | block d =>
       obtain ⟨h1, h2⟩ := ih (actStep m (.block d)).1 hall.2 (by simpa [actStep] using ht)
       simp only [actsRun, h1, h2]; simp [actStep]
 
-theorem actStep_inv (m : M) (a : Act) (hI : Inv m) (hok : okAct m a = true) : Inv (actStep m a).1 := by
-  obtain ⟨hlen, htm⟩ := hI
+theorem actStep_inv (m : M) (a : Act) (hI : Inv m) : Inv (actStep m a).1 := by
+  obtain ⟨h1, hT⟩ := hI
+  obtain ⟨_, hfl, hb⟩ := actStep_props m a
+  refine ⟨by unfold Inv1; rw [hfl, hb]; exact h1, ?_⟩
   cases a with
-  | start =>
-    simp only [okAct, Bool.and_eq_true, Bool.not_eq_eq_eq_not, Bool.not_true, List.isEmpty_iff] at hok
-    have ht : m.timers = [] := by
-      rcases htm with h | ⟨_, _, _, _, _, hr⟩
-      · exact h
-      · rw [hok.1] at hr; cases hr
-    simp only [actStep]; apply scheduleNext_inv <;> simp [ht, hok.2]
-  | stop =>
-    simp only [actStep]
-    rcases htm with h | ⟨h, d, h1, h2, h3, h4⟩
-    · split <;> simp [Inv, h, hlen]
-    · simp [Inv, h1, h2, h3]
-  | block d => exact ⟨hlen, by simpa [actStep] using htm⟩
+  | start => exact startM_tinv m h1 hT
+  | stop => exact stopM_tinv m hT
+  | block d => simpa [actStep, TInv] using hT
 
-theorem actsRun_inv (acts : List Act) : ∀ m, Inv m → okActs m acts = true → Inv (actsRun m acts).1 := by
+theorem actsRun_inv (acts : List Act) : ∀ m, Inv m → Inv (actsRun m acts).1 := by
   induction acts with
-  | nil => intro m hI _; simpa [actsRun] using hI
+  | nil => intro m hI; simpa [actsRun] using hI
   | cons a as ih =>
-    intro m hI hok
-    simp only [okActs, Bool.and_eq_true] at hok
-    have := ih (actStep m a).1 (actStep_inv m a hI hok.1) hok.2
+    intro m hI
+    have := ih (actStep m a).1 (actStep_inv m a hI)
     simpa [actsRun] using this
 
-/-- the shared iteration keeps the invariant: the timer `(h, d)` is armed, nothing is in flight -/
-theorem iterBody_inv (m : M) (h : Nat) (d : Rat) (before : Bool) (acts : List Act) (hI : Inv m)
-    (h1 : m.timers = [(h, d)]) (h3 : m.inflight = [])
-    (hokT : before = true → okActs m acts = true) (hokF : before = false → acts.all noStartAct = true) :
-    Inv (iterBody m h before acts).1 := by
+/-- the shared iteration keeps the overlap invariant and starts an invocation only when none is in flight — for
+every foreign callback, `start()` in the window included -/
+theorem iterBody_inv1 (m : M) (tid : Nat) (before : Bool) (acts : List Act) (h : Inv1 m) :
+    Inv1 (iterBody m tid before acts).1 ∧
+    (∀ inv t, Ev.started inv t ∈ (iterBody m tid before acts).2 → m.inflight = []) := by
   cases before with
   | true =>
-    have hI1 := actsRun_inv acts m hI (hokT rfl)
-    have hfl := (actsRun_props acts m).2
+    obtain ⟨hns, hfl, _⟩ := actsRun_props acts m
+    have hI1 := actsRun_inv1 acts m h
+    simp only [iterBody, if_true]
+    split
+    · have hI2 : Inv1 { (actsRun m acts).1 with
+          timers := (actsRun m acts).1.timers.filter (fun u => u.1 != tid) } := hI1
+      obtain ⟨k1, k2⟩ := runCb_inv1 _ hI2
+      refine ⟨k1, ?_⟩
+      intro inv t hh
+      rcases List.mem_append.mp hh with hh | hh
+      · exact absurd hh (hns inv t)
+      · have := k2 inv t hh
+        simpa [hfl] using this
+    · exact ⟨hI1, fun inv t hh => absurd hh (hns inv t)⟩
+  | false =>
+    obtain ⟨hns, hfl, _⟩ := actsRun_props acts { m with timers := m.timers.filter (fun u => u.1 != tid) }
+    have hI1 := actsRun_inv1 acts { m with timers := m.timers.filter (fun u => u.1 != tid) } h
+    simp only [iterBody, Bool.false_eq_true, if_false]
+    obtain ⟨k1, k2⟩ := runCb_inv1 _ hI1
+    refine ⟨k1, ?_⟩
+    intro inv t hh
+    rcases List.mem_append.mp hh with hh | hh
+    · exact absurd hh (hns inv t)
+    · have := k2 inv t hh
+      simpa [hfl] using this
+
+/-- the shared iteration keeps the timer invariant: the timer `(h, d)` is armed, nothing is in flight -/
+theorem iterBody_tinv (m : M) (h : Nat) (d : Rat) (before : Bool) (acts : List Act) (hI : Inv m)
+    (h1 : m.timers = [(h, d)]) (h3 : m.inflight = [])
+    (hokF : before = false → acts.all noStartAct = true) :
+    TInv (iterBody m h before acts).1 := by
+  cases before with
+  | true =>
+    have hI1 := actsRun_inv acts m hI
+    have hfl := (actsRun_props acts m).2.1
     simp only [iterBody, if_true]
     split
     · next hany =>
-      apply runCb_inv
+      apply runCb_tinv
       · rcases hI1.2 with ht | ⟨h', d', ht, _, _, _⟩
         · simp [ht] at hany
         · simp only [ht, List.any_cons, List.any_nil, Bool.or_false, beq_iff_eq] at hany
           simp [ht, hany]
       · simpa [h3] using hfl
-    · exact hI1
+    · exact hI1.2
   | false =>
     have ht0 : ({ m with timers := m.timers.filter (fun u => u.1 != h) } : M).timers = [] := by simp [h1]
     have hidle := actsRun_nostart_idle acts _ (hokF rfl) ht0
-    have hfl := (actsRun_props acts { m with timers := m.timers.filter (fun u => u.1 != h) }).2
+    have hfl := (actsRun_props acts { m with timers := m.timers.filter (fun u => u.1 != h) }).2.1
     simp only [iterBody, Bool.false_eq_true, if_false]
-    apply runCb_inv
+    apply runCb_tinv
     · exact hidle.1
     · simpa [h3] using hfl
 
-/-- one step keeps the invariant, and an invocation starts only when none is in flight -/
-theorem step_inv (m : M) (op : Op) (hI : Inv m) (hok : okOp m op = true) :
-    Inv (step m op).1 ∧ (∀ inv t, Ev.started inv t ∈ (step m op).2 → m.inflight = []) := by
-  obtain ⟨hlen, htm⟩ := hI
+/-- one step keeps the overlap invariant, and an invocation starts only when none is in flight — **every** op -/
+theorem step_inv1 (m : M) (op : Op) (h : Inv1 m) :
+    Inv1 (step m op).1 ∧ (∀ inv t, Ev.started inv t ∈ (step m op).2 → m.inflight = []) := by
   cases op with
   | start =>
-    simp only [okOp, Bool.and_eq_true, Bool.not_eq_eq_eq_not, Bool.not_true, List.isEmpty_iff] at hok
-    have ht : m.timers = [] := by
-      rcases htm with h | ⟨_, _, _, _, _, hr⟩
-      · exact h
-      · rw [hok.1] at hr; cases hr
-    refine ⟨?_, ?_⟩
-    · simp only [step]; apply scheduleNext_inv <;> simp [ht, hok.2]
-    · intro inv t h; exact hok.2
+    obtain ⟨p1, p2, p3, _⟩ := startM_props m
+    exact ⟨by simp only [step]; unfold Inv1; rw [p2, p3]; exact h, fun inv t hh => absurd hh (p1 inv t)⟩
   | stop =>
-    refine ⟨?_, ?_⟩
-    · simp only [step]
-      rcases htm with h | ⟨h, d, h1, h2, h3, h4⟩
-      · split <;> simp [Inv, h, hlen]
-      · simp [Inv, h1, h2, h3]
-    · intro inv t h
-      simp only [step] at h
-      split at h <;> simp at h
-  | sleep d =>
-    refine ⟨⟨hlen, ?_⟩, ?_⟩
-    · simpa [step] using htm
-    · intro inv t h; simp [step] at h
+    obtain ⟨p1, p2, p3, _⟩ := stopM_props m
+    exact ⟨by simp only [step]; unfold Inv1; rw [p2, p3]; exact h, fun inv t hh => by simp [step, p1] at hh⟩
+  | sleep d => exact ⟨h, by intro inv t hh; simp [step] at hh⟩
   | fire =>
-    rcases htm with h | ⟨h, d, h1, h2, h3, h4⟩
-    · refine ⟨?_, ?_⟩
-      · simp [step, h, earliest, Inv, hlen]
-      · intro inv t hh; simp [step, h, earliest] at hh
-    · refine ⟨?_, fun _ _ _ => h3⟩
-      simp only [step, h1, earliest_single]
-      apply runCb_inv <;> simp [h3]
+    simp only [step]
+    split
+    · exact ⟨h, by intro inv t hh; simp at hh⟩
+    · next t _ =>
+      exact runCb_inv1 { m with now := if m.now < t.2 then t.2 else m.now,
+                                timers := m.timers.filter (fun u => u.1 != t.1) } h
   | complete idx ok =>
     simp only [step]
     cases hq : m.inflight[idx]? with
-    | none => exact ⟨⟨hlen, htm⟩, by intro inv t h; simp at h⟩
+    | none => exact ⟨h, by intro inv t hh; simp at hh⟩
+    | some inv0 =>
+      have hidx : idx < m.inflight.length := by
+        rcases List.getElem?_eq_some_iff.mp hq with ⟨hh, _⟩; exact hh
+      have herase : m.inflight.eraseIdx idx = [] := by
+        apply List.eq_nil_of_length_eq_zero
+        rw [List.length_eraseIdx]; simp [hidx]; have := h.1; omega
+      refine ⟨?_, ?_⟩
+      · simp only []
+        apply scheduleNext_inv1
+        simp [Inv1, herase]
+      · intro inv t hh
+        simp only [] at hh
+        have := scheduleNext_no_started { m with inflight := m.inflight.eraseIdx idx, busy := false } inv t
+        rcases List.mem_append.mp hh with hh | hh
+        · rcases List.mem_append.mp hh with hh | hh
+          · simp at hh
+          · split at hh <;> simp at hh
+        · exact absurd hh this
+  | iter late before acts =>
+    simp only [step]
+    split
+    · exact ⟨actsRun_inv1 acts m h, fun inv t hh => absurd hh ((actsRun_props acts m).1 inv t)⟩
+    · next t _ =>
+      exact iterBody_inv1 { m with now := if m.now < t.2 + late then t.2 + late else m.now } t.1 before acts h
+
+/-- one admissible step keeps the full invariant (overlap + timers) -/
+theorem step_inv (m : M) (op : Op) (hI : Inv m) (hok : okOp op = true) :
+    Inv (step m op).1 ∧ (∀ inv t, Ev.started inv t ∈ (step m op).2 → m.inflight = []) := by
+  obtain ⟨k1, k2⟩ := step_inv1 m op hI.1
+  refine ⟨⟨k1, ?_⟩, k2⟩
+  obtain ⟨h1, htm⟩ := hI
+  cases op with
+  | start => exact startM_tinv m h1 htm
+  | stop => exact stopM_tinv m htm
+  | sleep d => simpa [step, TInv] using htm
+  | fire =>
+    rcases htm with h | ⟨h, d, ht, h2, h3, h4⟩
+    · simp [step, h, earliest, TInv]
+    · simp only [step, ht, earliest_single]
+      apply runCb_tinv <;> simp [h3]
+  | complete idx ok =>
+    simp only [step]
+    cases hq : m.inflight[idx]? with
+    | none => exact htm
     | some inv0 =>
       have hne : m.inflight ≠ [] := by
         intro h; rw [h] at hq; simp at hq
@@ -281,64 +391,58 @@ theorem step_inv (m : M) (op : Op) (hI : Inv m) (hok : okOp m op = true) :
         rcases List.getElem?_eq_some_iff.mp hq with ⟨h, _⟩; exact h
       have herase : m.inflight.eraseIdx idx = [] := by
         apply List.eq_nil_of_length_eq_zero
-        rw [List.length_eraseIdx]; simp [hidx]; omega
-      refine ⟨?_, ?_⟩
-      · simp only []
-        apply scheduleNext_inv <;> simp [ht, herase]
-      · intro inv t h
-        simp only [] at h
-        have := scheduleNext_no_started { m with inflight := m.inflight.eraseIdx idx } inv t
-        rcases List.mem_append.mp h with h | h
-        · rcases List.mem_append.mp h with h | h
-          · simp at h
-          · split at h <;> simp at h
-        · exact absurd h this
+        rw [List.length_eraseIdx]; simp [hidx]; have := h1.1; omega
+      simp only []
+      apply scheduleNext_tinv <;> simp [ht, herase]
   | iter late before acts =>
-    rcases htm with h | ⟨h, d, h1, h2, h3, h4⟩
+    rcases htm with h | ⟨h, d, ht, h2, h3, h4⟩
     · have hst : step m (.iter late before acts) = actsRun m acts := by simp [step, h, earliest]
       rw [hst]
-      refine ⟨?_, fun inv t hh => absurd hh ((actsRun_props acts m).1 inv t)⟩
       cases before with
-      | true => exact actsRun_inv acts m ⟨hlen, Or.inl h⟩ (by simpa [okOp, h, earliest] using hok)
+      | true => exact (actsRun_inv acts m ⟨h1, Or.inl h⟩).2
       | false =>
         have := actsRun_nostart_idle acts m (by simpa [okOp] using hok) h
-        exact ⟨by rw [(actsRun_props acts m).2]; exact hlen, Or.inl this.1⟩
-    · refine ⟨?_, fun _ _ _ => h3⟩
-      have hI0 : Inv { m with now := if m.now < d + late then d + late else m.now } :=
-        ⟨hlen, Or.inr ⟨h, d, h1, h2, h3, h4⟩⟩
-      have hok' : before = true → okActs { m with now := if m.now < d + late then d + late else m.now } acts = true := by
-        intro hb; subst hb; simpa only [okOp, h1, earliest_single] using hok
+        exact Or.inl this.1
+    · have hI0 : Inv { m with now := if m.now < d + late then d + late else m.now } :=
+        ⟨h1, Or.inr ⟨h, d, ht, h2, h3, h4⟩⟩
       have hok'' : before = false → acts.all noStartAct = true := by
         intro hb; subst hb; simpa only [okOp] using hok
-      simp only [step, h1, earliest_single]
-      rw [← h1]
-      exact iterBody_inv _ h d before acts hI0 h1 h3 hok' hok''
+      simp only [step, ht, earliest_single]
+      rw [← ht]
+      exact iterBody_tinv _ h d before acts hI0 ht h3 hok''
 
 /-- invocation starts happen only from idle states, along a whole program -/
 def StartsOnlyWhenIdle : M → List Op → Prop
   | _, [] => True
   | m, op :: ops => (∀ inv t, Ev.started inv t ∈ (step m op).2 → m.inflight = []) ∧ StartsOnlyWhenIdle (step m op).1 ops
 
-/-- **no_overlap**: for every admissible program (any interleaving of timer firings, clock jumps, coroutine
-completions/failures, stop and idle re-start) at most one invocation is in flight at any time and a new invocation
-starts only when the previous one has finished. -/
-theorem no_overlap (ops : List Op) : ∀ m, Inv m → WF m ops →
+/-- **no_overlap**: for **every** program — any interleaving of timer firings, clock jumps, coroutine
+completions/failures, `stop()`, and `start()` in any state (idle, already running, while a coroutine invocation is still
+pending, from a foreign callback in the tick's own loop iteration) — at most one invocation is in flight at any time
+and a new invocation starts only when the previous one has finished.  No admissibility hypothesis. -/
+theorem no_overlap (ops : List Op) : ∀ m, Inv1 m →
     StartsOnlyWhenIdle m ops ∧ (run m ops).1.inflight.length ≤ 1 := by
   induction ops with
-  | nil => intro m hI _; exact ⟨trivial, by simpa [run] using hI.1⟩
+  | nil => intro m hI; exact ⟨trivial, by simpa [run] using hI.1⟩
   | cons op ops ih =>
-    intro m hI hwf
-    obtain ⟨h1, h2⟩ := step_inv m op hI hwf.1
-    obtain ⟨h3, h4⟩ := ih (step m op).1 h1 hwf.2
+    intro m hI
+    obtain ⟨h1, h2⟩ := step_inv1 m op hI
+    obtain ⟨h3, h4⟩ := ih (step m op).1 h1
     exact ⟨⟨h2, h3⟩, by simpa [run] using h4⟩
 
-/-- the invariant holds in every reachable state of an admissible program -/
-theorem inv_run (ops : List Op) : ∀ m, Inv m → WF m ops → Inv (run m ops).1 := by
+/-- … in particular from the freshly constructed object -/
+theorem no_overlap_from_init (ct now : Rat) (ks : List Kind) (ops : List Op) :
+    StartsOnlyWhenIdle (init ct now ks) ops ∧ (run (init ct now ks) ops).1.inflight.length ≤ 1 :=
+  no_overlap ops _ (inv_init ct now ks).1
+
+/-- the full invariant (at most one armed timer, none while an invocation is in flight) holds in every reachable
+state of a program without `start()` in the handle/body window -/
+theorem inv_run (ops : List Op) : ∀ m, Inv m → WF ops → Inv (run m ops).1 := by
   induction ops with
   | nil => intro m hI _; simpa [run] using hI
   | cons op ops ih =>
     intro m hI hwf
-    have := ih (step m op).1 (step_inv m op hI hwf.1).1 hwf.2
+    have := ih (step m op).1 (step_inv m op hI (hwf op (by simp))).1 (fun o ho => hwf o (by simp [ho]))
     simpa [run] using this
 
 /-- the op does not call `start()` (directly or from a foreign callback) -/
@@ -376,8 +480,8 @@ theorem step_not_running (m : M) (op : Op) (hr : m.running = false) (hop : noSta
         t.1 before acts hr (by simpa [noStart] using hop)
       exact ⟨h1, by simp [h2]⟩
   | stop =>
-    simp only [step]
-    split <;> simp
+    obtain ⟨p1, _, _, p4⟩ := stopM_props m
+    exact ⟨p4, by simp [step, p1]⟩
   | sleep d => simp [step, hr]
   | fire =>
     simp only [step]
@@ -394,7 +498,7 @@ theorem step_not_running (m : M) (op : Op) (hr : m.running = false) (hop : noSta
       · simp only []; rw [scheduleNext_running]; simpa using hr
       · intro inv t h
         simp only [] at h
-        have := scheduleNext_no_started { m with inflight := m.inflight.eraseIdx idx } inv t
+        have := scheduleNext_no_started { m with inflight := m.inflight.eraseIdx idx, busy := false } inv t
         rcases List.mem_append.mp h with h | h
         · rcases List.mem_append.mp h with h | h
           · simp at h
@@ -471,13 +575,12 @@ theorem iter_nil_eq_fire (m : M) : step m (.iter 0 false []) = step m .fire := b
   · simp [actsRun]
   · simp [iterBody, actsRun, Rat.add_zero]
 
-theorem stop_clears (m : M) : (step m .stop).1.running = false := by
-  simp only [step]; split <;> simp
+theorem stop_clears (m : M) : (step m .stop).1.running = false := (stopM_props m).2.2.2
 
 /-- … and after `stop` in an admissible program nothing is armed at all (the pending timer is removed) -/
 theorem stop_disarms (m : M) (hI : Inv m) : (step m .stop).1.timers = [] := by
   obtain ⟨_, htm⟩ := hI
-  simp only [step]
+  simp only [step, stopM]
   rcases htm with h | ⟨h, d, h1, h2, _, _⟩
   · split <;> simp [h]
   · simp [h1, h2]
